@@ -78,6 +78,11 @@ def gen_cases(tier, seed):
 # ------------------------------------------------------------------ helpers
 
 
+def _fresh(label):
+    """The same text as a new string object (what json / csv / str methods hand out)."""
+    return None if label is None else (label + " ").strip()
+
+
 def _kinds(v):
     """The same number delivered as different value kinds -> list of (kind, obj, extractor)."""
     out = [("py", v, lambda o: o)]
@@ -273,7 +278,8 @@ def _run_loading(case, ctx):
             _check_values(
                 ctx,
                 "c_loading",
-                lambda x, a=a, b=b, m=m: c_loading(x, a[0], b[0], a[1], b[1], ads, T, m[0], m[1]),
+                # (labels as they arrive from a file or a user's string handling: equal text, not the same object)
+                lambda x, a=a, b=b, m=m: c_loading(x, a[0], _fresh(b[0]), a[1], _fresh(b[1]), ads, T, m[0], _fresh(m[1])),
                 f,
                 rtol,
                 a,
@@ -315,6 +321,37 @@ def _run_loading(case, ctx):
                               direct=ac,
                               material=m)
         ctx.count("triples", "loading", n)
+
+
+def _edited_material(case, ctx, r):
+    """A material whose density / molar mass is corrected after it was used in a conversion: the next conversion uses the
+    values it has now."""
+    import pygaps
+    from pygaps.units.converter_mode import c_material
+    props = dict(case["props"])
+    mat = pygaps.Material("verif-mat-edited", **props)
+    pairs = [(("volume", "cm3"), ("molar", "mol")), (("molar", "mmol"), ("volume", "cm3")), (("mass", "g"), ("volume", "cm3")), (("mass", "g"), ("molar", "mol"))]
+    for step in range(3):
+        for a, b in pairs:
+            try:
+                f = RU.material_factor(a[0], a[1], b[0], b[1], density=mat.properties["density"], molar_mass=mat.properties["molar_mass"])
+            except Exception:
+                continue
+            st, got = _call(c_material, 1.7, a[0], b[0], a[1], b[1], mat)
+            ctx.case(["edited-material", a, b, step])
+            ctx.count("material_histories", "converted-after-%d-edit(s)" % step)
+            if st != "ok" or not close(float(got), 1.7 * f, 1e-9):
+                ctx.violation("c_material/edited-material/%s" % _bk(a, b), "after the material's density / molar mass was changed the conversion still uses the earlier values", got=got, expected=1.7 * f,
+                              density=mat.properties["density"], molar_mass=mat.properties["molar_mass"], edits=step)
+                return
+        # the correction: through the attribute or through the property dictionary
+        if step == 0:
+            mat.properties["density"] = round(mat.properties["density"] * r.uniform(1.2, 1.8), 4)
+        else:
+            try:
+                mat.molar_mass = round(mat.properties["molar_mass"] * r.uniform(0.5, 0.8), 3)
+            except Exception:
+                mat.properties["molar_mass"] = round(mat.properties["molar_mass"] * r.uniform(0.5, 0.8), 3)
 
 
 def _run_samename(case, ctx):
@@ -362,6 +399,11 @@ class _Mat:
 
 
 def _run_material(case, ctx):
+    _edited_material(case, ctx, gen.rng(case["seed"], "edit"))
+    _run_material_body(case, ctx)
+
+
+def _run_material_body(case, ctx):
     import pygaps
     from pygaps.units.converter_mode import c_material
     props = case["props"]
